@@ -319,7 +319,68 @@ def prelude():
         A.FuncStmt("fr", [V("a"), V("r")], True, [A.Return(V("r"))]),
         A.FuncStmt("tick", [V("k")], False, [A.pr(A.Bin("+", S("tick "), A.Call(A.Prop(V("k"), "type", True), []))), A.Return(V("k"))]),
         A.FuncStmt("ident", [V("x")], False, [A.Return(V("x"))]),
+        A.Declare(V("ob"), A.obj(("v", I(1)), ("get", A.FuncE([], False, [A.Return(A.Prop(V("this"), "v", False))])),
+                                 ("inner", A.obj(("v", I(2)), ("get", A.FuncE([], False, [A.Return(A.Prop(V("this"), "v", False))])))))),
+        A.FuncStmt("mkc", [], False, [A.Declare(V("c"), I(-1)), A.Return(A.FuncE([], False, [A.OpAssign("+", V("c"), I(1)), A.Return(V("c"))]))]),
+        A.Declare(V("nextc"), A.call("mkc")),
     ]
+
+
+def ok_exprs():
+    """Operations that succeed on their own: name -> (builder, properties they belong to).  Placed into every host
+    position by generate(kind="ok:<name>"); whether the host accepts the value is for the reference model to say."""
+    S_ = S
+    E = {}
+    E["int_literal"] = (lambda: I(2), "C06 C16")
+    E["negative_literal"] = (lambda: I(-1), "C06 C16")
+    E["sum"] = (lambda: A.Bin("-", V("n"), I(6)), "C06 C08")                     # 1
+    E["product"] = (lambda: A.Bin("*", V("n"), I(0)), "C06 C08")                # 0
+    E["less_than"] = (lambda: A.Bin("<", V("n"), I(10)), "C06 C16 C07")
+    E["equals_lists"] = (lambda: A.Bin("==", V("xs"), _lst(I(1), I(2), I(3))), "C10 C16")
+    E["identical"] = (lambda: A.Bin("===", V("xs"), V("xs")), "C10 C05")
+    E["and"] = (lambda: A.Bin("&&", A.Bool(True), A.Bin(">", V("n"), I(0))), "C16 C08 C07")
+    E["string_var"] = (lambda: V("s"), "C15 C11")
+    E["concat"] = (lambda: A.Bin("+", V("s"), S_("é")), "C15 C11")
+    E["interpolated"] = (lambda: A.IStr(["<", V("s"), ">"]), "C15")
+    E["char"] = (lambda: A.Index(V("s"), I(1)), "C11 C15")
+    E["string_slice"] = (lambda: A.RangeIndex(V("s"), I(1), None), "C11 C15")
+    E["list_var"] = (lambda: V("xs"), "C05 C11")
+    E["list_literal"] = (lambda: _lst(V("n"), V("s")), "C11 C05 C13")
+    E["list_spread"] = (lambda: A.ListE([(V("xs"), True), (I(4), False)], False), "C13 C11 C05")
+    E["list_slice"] = (lambda: A.RangeIndex(V("xs"), I(1), None), "C11 C05")
+    E["list_concat"] = (lambda: A.Bin("+", V("xs"), _lst(I(0))), "C11 C05")
+    E["element"] = (lambda: A.Index(V("xs"), I(0)), "C11")
+    E["range"] = (lambda: A.Range(I(0), I(2)), "C11 C07")
+    E["object_var"] = (lambda: V("o"), "C12 C05")
+    E["object_literal"] = (lambda: A.obj(("a", V("n")), ("z", V("s"))), "C12")
+    E["object_spread"] = (lambda: A.ObjectE([A.Single(V("o"), True, False), A.Pair(S_("b"), I(2))]), "C12 C13")
+    E["property"] = (lambda: A.Prop(V("o"), "a", False), "C12")
+    E["key_lookup"] = (lambda: A.Index(V("o"), S_("a")), "C12")
+    E["call"] = (lambda: A.call("f0"), "C14 C07")
+    E["call_with_argument"] = (lambda: A.call("ident", V("n")), "C14")
+    E["call_returning_list"] = (lambda: A.call("ident", V("xs")), "C14 C05")
+    E["rest_call"] = (lambda: A.Call(V("fr"), [(I(0), False), (V("xs"), True)]), "C14 C13")
+    E["method"] = (lambda: A.Call(A.Prop(V("ob"), "get", False), []), "C14")
+    E["method_two_steps"] = (lambda: A.Call(A.Prop(A.Index(V("ob"), S_("inner")), "get", False), []), "C14 C12")
+    E["counter_closure"] = (lambda: A.call("nextc"), "C04 C14 C05")
+    E["printing_call"] = (lambda: A.call("tick", I(1)), "C07 C14 C17")
+    E["called_literal"] = (lambda: A.Call(A.FuncE([V("q")], False, [A.Return(A.Bin("+", V("q"), I(1)))]), [(I(0), False)]), "C14 C04 C08")
+    E["function_value"] = (lambda: V("f0"), "C14 C16 C10")
+    E["function_literal"] = (lambda: A.FuncE([], False, [A.Return(I(0))]), "C14 C16")
+    E["builtin_value"] = (lambda: V("print"), "C16 C10 C19")
+    E["method_value"] = (lambda: A.Prop(V("ob"), "get", False), "C14")
+    E["type_of"] = (lambda: A.Call(A.Prop(V("xs"), "type", True), []), "C16 C15")
+    E["length"] = (lambda: A.Call(A.Prop(V("s"), "len", True), []), "C15 C11")
+    E["null"] = (lambda: A.Null(), "C16 C19")
+    E["true"] = (lambda: A.Bool(True), "C16 C07")
+    E["empty_list"] = (lambda: _lst(), "C11 C13 C10")
+    E["empty_object"] = (lambda: A.obj(), "C12 C13 C10")
+    E["empty_string"] = (lambda: S_(""), "C15 C11")
+    E["print_call"] = (lambda: A.call("print", V("n")), "C19 C14 C17")
+    return E
+
+
+EXPR_OK = ok_exprs()
 
 
 def generate(seed, kind=None, position=None, ctx=None, depth=None):
@@ -329,7 +390,11 @@ def generate(seed, kind=None, position=None, ctx=None, depth=None):
     depth = rng.choice([0, 0, 1, 1, 2, 3, 5]) if depth is None else depth
     ctx = ctx or rng.choice(CONTEXTS)
     slot = False
-    if kind in EXPR_FAIL:
+    if kind.startswith("ok:"):
+        position = position or rng.choice(POSITIONS)
+        body, slot = place(EXPR_OK[kind[3:]][0](), position, rng, depth > 0)
+        body = body + [A.pr(S("after the host"))]
+    elif kind in EXPR_FAIL:
         position = position or rng.choice(POSITIONS)
         if kind.startswith("interp_slot") and position == "slot":
             position = "arg"
